@@ -192,7 +192,8 @@ def rekeying(ctx, RA, P) -> None:
                     if c["anchored"] is None:
                         ctx.viol(RA, construct, f"new watch path computed by an unrecognised rewrite `{c['text'][:120]}`", loc)
                         continue
-                    elem_ok = c["x"].startswith("$elem(self._wd_for_path") or bool(mflt and c["x"].startswith("$elem([") and "self._wd_for_path" in c["x"])
+                    # the rewritten path is the loop's own element, the loop running over (a snapshot of) the path->wd map
+                    elem_ok = c["x"].startswith("$elem(") and "self._wd_for_path" in c["x"] and c["x"] == f"$elem({e.text})"
                     # a = the move source path (what the startswith test anchors), b = the record's new path
                     a_ok = any(c["a"] in s for s in sw)
                     ctx.check(
